@@ -105,7 +105,7 @@ RESULT_ADT = "core::result::Result"
 
 
 def is_result_ty(t):
-    return isinstance(t, str) and t.startswith("std::result::Result<")
+    return isinstance(t, str) and t.startswith("core::result::Result<")
 
 
 def subst_ty(s, tsub):
